@@ -33,7 +33,7 @@ RULE = ('cases: (a) seeded histories of 10-40 ops over 2-3 fresh TagLibrary obje
         'duplicate rejected and >=3 accepted tags; distinct by the name sequence.')
 ASSUMPTIONS = ['which hostile names are accepted is not prescribed; ordinary identifiers (upper/camel-case words) must be accepted',
                'names are str (the quantifier ranges over strings)']
-FLOORS = {'quick': {'adds_accepted': 5000, 'adds_rejected_duplicate': 1500, 'adds_rejected_none': 300, 'hostile_tried': 4000,
+FLOORS = {'quick': {'module_names_as_str_subclass': 33, 'names_as_str_subclass': 1489, 'local_decisions_compared': 251, 'adds_accepted': 5000, 'adds_rejected_duplicate': 1500, 'adds_rejected_none': 300, 'hostile_tried': 4000,
                     'hostile_rejected': 500, 'hostile_accepted': 500, 'id_probes': 10000, 'unknown_name_probes': 5000,
                     'full_checks': 20000, 'itemize_result_mutated': 5000, 'big_libraries': 6, 'big_tags': 800, 'module_histories': 24, 'module_hostile_tried': 210, 'contract:TagLibrary.bijection': 20000,
                     'reach:Tags.TagLibrary.add_tag': 8000},
@@ -83,6 +83,21 @@ def case_module(ctx, case):
     ctx.count('module_histories')
     if out.get('violation'):
         raise CaseViolation('module-level library: ' + out['violation']['what'], **out['violation'].get('detail', {}))
+    # libraries do not influence each other: whether a local library accepts a (non-duplicate) name in a process where the global
+    # library is in use must be what a fresh local library decides here, where the global library has never been touched
+    import ECAgent.Tags as tags
+    for name, accepted in out.get('local_decisions', []):
+        probe = tags.TagLibrary()
+        try:
+            probe.add_tag(name)
+            here_accepted = True
+        except tags.DuplicateTagError:
+            here_accepted = False
+        ctx.count('local_decisions_compared')
+        if here_accepted != accepted:
+            raise CaseViolation(f'a local library {"accepted" if accepted else "rejected"} the name {name[:60]!r} in a process that also uses the '
+                                f'global library, but a local library {"accepts" if here_accepted else "rejects"} it where the global library is '
+                                f'untouched: the libraries influence each other', tried=out['tried'][:20])
     if out.get('nontrivial'):
         ctx.distinct(('module', tuple(out['tried'])))
     if case['i'] < 2:
